@@ -329,6 +329,11 @@ func unitTamper(c *vk.Ctx) {
 					muts++
 					got, derr := safeDecode(enc1, m)
 					out := judgeDecode(tok, m, plain, got, derr)
+					if strings.HasPrefix(kind, "foreign:") && out == "malleable-equal" {
+						// a token produced under ANOTHER key (or none) is "not issued under that key": decoding it
+						// at all — even to the same position — means the two keys are interchangeable
+						out = "VIOLATION"
+					}
 					t[kind+"->"+out]++
 					if out == "VIOLATION" || out == "PANIC" {
 						wit := map[string]any{"key": key1, "serializer": su.name, "position": pos.s, "type_quoted": fmt.Sprintf("%q", typ),
